@@ -1,3 +1,110 @@
-import NetaddrVerif.Model.IPSet
+/-
+Props/C06.lean — property C06 "IPSet is canonical after any history, so equality is
+extensional".  Property theorems only; lemmas are in Lemmas/IPSetL1..L5, CanonSetL, MergeUp.
+
+Statement (properties.jsonl): after any sequence of constructions and mutations the content
+an IPSet shows is the unique minimal, sorted, host-bit-free CIDR list of exactly the
+addresses that history denotes; two IPSets compare equal iff they contain the same addresses.
+
+Vocabulary: `IPSet.Inv s` — every stored key is in range and host-bit-free, keys are pairwise
+distinct, and per family the stored blocks are aligned, pairwise disjoint and no two can be
+combined (`CanonSet`).  `denS s ver a` — address `a` of family `ver` is denoted by `s`.
+`canonset_ext` (Lemmas/CanonSetL) is the uniqueness theorem: two such block sets with the
+same denotation have the same members.
+-/
+import NetaddrVerif.Lemmas.IPSetL5
 namespace NV.C06
+open NV NV.IPSet
+
+/-- the empty set satisfies the invariant (`IPSet()`, `clear()`) -/
+theorem inv_empty : Inv ([] : St) ∧ ∀ ver a, ¬ denS [] ver a := by
+  refine ⟨inv_nil, ?_⟩
+  intro ver a h
+  obtain ⟨n, hn, _⟩ := h
+  simp at hn
+
+/-- `add(addr)` for any network / address / int / string argument (the harness hands the
+    model the network `IPNetwork(addr)`, host bits included): the state stays canonical and
+    denotes exactly the old addresses plus the block of the argument.  This covers the whole
+    incremental compaction `_compact_single_network`: supernet walk (for /width), the
+    subnet/supernet scan, removal of absorbed blocks and the sibling-merge loop with its
+    prefix decrement and host-bit clearing. -/
+theorem add_net_spec (s : St) (hs : Inv s) (n : Net) (hn : n.WF) :
+    Inv (addNet s n) ∧
+    ∀ ver a, denS (addNet s n) ver a ↔ denS s ver a ∨ (ver = n.ver ∧ n.first ≤ a ∧ a ≤ n.last) := by
+  obtain ⟨hg, hb, hv, hp⟩ := netCidr_good n hn
+  have hfl : (netCidr n).first = n.first ∧ (netCidr n).last = n.last := by
+    have h1 : (netCidr n).first = n.first := by
+      have := congrArg Blk.base hb; simpa [blk] using this
+    refine ⟨h1, ?_⟩
+    rw [last_eq _ hg.1, last_eq n hn, h1, hv, hp]
+  have := compactSingle_spec s hs (netCidr n) hg
+  unfold addNet
+  refine ⟨this.1, fun ver a => ?_⟩
+  rw [this.2 ver a, hfl.1, hfl.2, hv]
+
+/-- any sequence of `add` calls from the empty set: canonical at every point, and the
+    denotation is the union of the arguments (induction over the history) -/
+theorem add_history (ns : List Net) (hns : ∀ n ∈ ns, n.WF) :
+    Inv (ns.foldl addNet []) ∧
+    ∀ ver a, denS (ns.foldl addNet []) ver a ↔ ∃ n ∈ ns, ver = n.ver ∧ n.first ≤ a ∧ a ≤ n.last := by
+  suffices h : ∀ (s : St), Inv s →
+      Inv (ns.foldl addNet s) ∧ ∀ ver a, denS (ns.foldl addNet s) ver a ↔
+        denS s ver a ∨ ∃ n ∈ ns, ver = n.ver ∧ n.first ≤ a ∧ a ≤ n.last by
+    obtain ⟨h1, h2⟩ := h [] inv_nil
+    refine ⟨h1, fun ver a => ?_⟩
+    rw [h2 ver a]
+    constructor
+    · rintro (h | h)
+      · exact absurd h (inv_empty.2 ver a)
+      · exact h
+    · intro h; exact Or.inr h
+  induction ns with
+  | nil => intro s hs; exact ⟨hs, fun ver a => by simp⟩
+  | cons n ns ih =>
+    intro s hs
+    obtain ⟨h1, h2⟩ := add_net_spec s hs n (hns n (List.mem_cons_self ..))
+    obtain ⟨h3, h4⟩ := ih (fun m hm => hns m (List.mem_cons_of_mem _ hm)) (addNet s n) h1
+    refine ⟨h3, fun ver a => ?_⟩
+    simp only [List.foldl_cons]
+    rw [h4 ver a, h2 ver a]
+    constructor
+    · rintro ((h | h) | ⟨m, hm, h⟩)
+      · exact Or.inl h
+      · exact Or.inr ⟨n, List.mem_cons_self .., h⟩
+      · exact Or.inr ⟨m, List.mem_cons_of_mem _ hm, h⟩
+    · rintro (h | ⟨m, hm, h⟩)
+      · exact Or.inl (Or.inl h)
+      · rcases List.mem_cons.1 hm with e | e
+        · subst e; exact Or.inl (Or.inr h)
+        · exact Or.inr ⟨m, e, h⟩
+
+/-- Equality is extensional: two sets satisfying the invariant compare equal (dict equality on
+    keys) iff they denote the same addresses, no matter how each was built. -/
+theorem eq_iff (s t : St) (hs : Inv s) (ht : Inv t) :
+    IPSet.eq s t = true ↔ ∀ ver a, denS s ver a ↔ denS t ver a := by
+  rw [eq_iff_mem s t hs ht]
+  constructor
+  · intro h ver a; exact denS_of_mem t s h ver a
+  · intro h n; exact mem_iff_of_den s t hs ht h n
+
+/-- The stored keys are determined by the denoted addresses alone: the representation is
+    unique, whatever history produced it. -/
+theorem keys_unique (s t : St) (hs : Inv s) (ht : Inv t) (h : ∀ ver a, denS s ver a ↔ denS t ver a)
+    (n : Net) : n ∈ s ↔ n ∈ t := mem_iff_of_den s t hs ht h n
+
+/-- What `iter_cidrs()` shows is a permutation of the stored keys, hence host-bit-free,
+    in range, pairwise disjoint and not combinable. -/
+theorem shown_mem (s : St) (n : Net) : n ∈ iterCidrs s ↔ n ∈ s := by
+  unfold iterCidrs sortNets; exact List.mem_mergeSort
+
+theorem shown_hostbit_free (s : St) (hs : Inv s) (n : Net) (hn : n ∈ iterCidrs s) :
+    n.val = n.first ∧ n.WF := by
+  have := hs.good n ((shown_mem s n).1 hn); exact ⟨this.2, this.1⟩
+
+/-! ### non-vacuity -/
+example : (⟨4, 0x0a000005, 24⟩ : Net).WF := by simp [Net.WF, width]
+example : addNet [] ⟨4, 0x0a000005, 24⟩ = [⟨4, 0x0a000000, 24⟩] := by decide +kernel
+example : addNet (addNet [] ⟨4, 0x0a000000, 25⟩) ⟨4, 0x0a000080, 25⟩ = [⟨4, 0x0a000000, 24⟩] := by decide +kernel
+
 end NV.C06
